@@ -139,13 +139,16 @@ def run_property(prop, pc, kf, tier, seed, sc, t0):
     if prop == 'C11':
         tool_problems += c11_shared_contracts(results)
     kani_results = []
-    if not tool_problems and (tier == 'thorough' or violations):
+    if (not tool_problems and tier == 'thorough') or violations:
         # thorough: every harness of the property; quick: only as triage of a Verus failure (fast harnesses)
         kani_results = K.run_for_property(prop, sc.dir, include_slow=(tier == 'thorough'))
-    if tool_problems:
+    if tool_problems and not violations:
         for t in tool_problems:
             print('TOOL-LIMIT property=%s %s' % (prop, t))
         return 2
+    for t in tool_problems:
+        # a definite violation in one unit stands even if another unit could not be built / decided
+        print('NOTE property=%s (no verdict for part of the run) %s' % (prop, t[:300]))
     if not obligations:
         print('TOOL-LIMIT property=%s no obligations generated (vacuous run)' % prop)
         return 2
